@@ -34,8 +34,12 @@ def main():
             dst = os.path.join(tmp, 'repo')
             shutil.copytree('/repo', dst, ignore=shutil.ignore_patterns(
                 '.git', '__pycache__', '*.pyc', 'doc', 'releasenotes'))
-            p = subprocess.run(['patch', '-p1', '-s', '-i',
-                                os.path.join(d, 'patch.diff')], cwd=dst,
+            # patch.head.diff: the same change ported by hand to the current
+            # HEAD of /repo, when a later fix: commit touched the same lines
+            pf = os.path.join(d, 'patch.head.diff')
+            if not os.path.exists(pf):
+                pf = os.path.join(d, 'patch.diff')
+            p = subprocess.run(['patch', '-p1', '-s', '-i', pf], cwd=dst,
                                capture_output=True, text=True)
             if p.returncode != 0:
                 print(name, 'PATCH DOES NOT APPLY')
